@@ -62,6 +62,9 @@ int __allocation_counter = 0;
 // size_t __malloc_margin = 32;
 char *__malloc_heap_start = &_heap_start;
 // char *__malloc_heap_end = &__heap_end;
+/* First address behind the heap.  0 (the default) means "no limit": the
+   break then grows without bound, as it always did in this port.  */
+char *__malloc_heap_end = 0;
 
 char *__brkval = NULL;
 struct __freelist *__flp = NULL;
@@ -81,7 +84,7 @@ void *malloc(size_t len)
 
     struct __freelist *fp1, *fp2, *sfp1, *sfp2;
     char *cp;
-    size_t s; //, avail;
+    size_t s, avail;
 
     if (len % __WORDSIZE != 0)
         len += (__WORDSIZE - (len % __WORDSIZE));
@@ -192,6 +195,18 @@ void *malloc(size_t len)
      * Both tests below are needed to catch the case len >= 0xfffe.
      */
     // if (avail >= len && avail >= len + sizeof(size_t)) {
+    if (__malloc_heap_end != 0)
+    {
+        cp = __malloc_heap_end;
+        avail = cp <= __brkval ? 0 : (size_t)(cp - __brkval);
+        /* Both tests are needed to catch a wrap of len + sizeof(size_t). */
+        if (!(avail >= len && avail >= len + sizeof(size_t)))
+        {
+            /* Memory exhausted. */
+            __allocation_counter--;
+            return 0;
+        }
+    }
     fp1 = (struct __freelist *)__brkval;
     __brkval += len + sizeof(size_t);
     fp1->sz = len;
